@@ -248,7 +248,8 @@ func (r *run) buildResult(pm *promM) {
 	if err != nil {
 		panic(err)
 	}
-	root, _ := capnp.NewRootStruct(seg, capnp.ObjectSize{DataSize: 8, PointerCount: 3})
+	// (258 pointers: a pipelined path may name a field index that does not fit in one byte)
+	root, _ := capnp.NewRootStruct(seg, capnp.ObjectSize{DataSize: 8, PointerCount: 258})
 	pm.caps = map[string]*hookM{}
 	addCap := func() (*hookM, capnp.Ptr) {
 		m := &hookM{id: len(r.hooks)}
@@ -269,11 +270,14 @@ func (r *run) buildResult(pm *promM) {
 	inner.SetPtr(0, pc)
 	root.SetPtr(2, inner.ToPtr())
 	pm.caps["2.0."] = c
+	d, pd := addCap()
+	root.SetPtr(257, pd)
+	pm.caps["257."] = d
 	pm.result = root
 	pm.msg = msg
 }
 
-var paths = [][]uint16{{0}, {1}, {2, 0}, {0}, {2}, {}, {3}}
+var paths = [][]uint16{{0}, {1}, {2, 0}, {0}, {2}, {}, {3}, {257}, {256}}
 
 func (r *run) pickTransform() []capnp.PipelineOp {
 	p := paths[r.s.Choice("path", len(paths))]
